@@ -200,6 +200,7 @@ def load_program(repo=REPO, ndebug=True, witness_units=("instantiate.cpp",), ver
     gone = inline.inline_program(raw, log=prog.inlined) if inline_helpers else set()
     if inline_helpers:
         inline.dealias_new_references(raw)
+        inline.collapse_deref_members(raw)
         inline.dealias_new_snapshots(raw, lambda d_: Function(copy.deepcopy(d_), prog))
     for sig, f in raw.items():
         if sig in gone:
@@ -379,7 +380,16 @@ class Function:
         elif k in ("BinaryOperator", "CompoundAssignOperator"):
             s = "(%s %s %s)" % (R(c[0]), n["op"], R(c[1]))
         elif k == "UnaryOperator":
-            s = (R(c[0]) + n["op"]) if n.get("post") else (n["op"] + R(c[0]))
+            s = None
+            if n.get("op") == "&" and not n.get("post") and c:
+                # `&*p` (what de-aliasing a reference bound to `*p` leaves behind for `&ref`) designates p
+                x_ = self.nodes[c[0]]
+                while x_["k"] in ("ParenExpr", "ImplicitCastExpr") and x_.get("c"):
+                    x_ = self.nodes[x_["c"][0]]
+                if x_["k"] == "UnaryOperator" and x_.get("op") == "*" and not x_.get("post") and x_.get("c"):
+                    s = R(x_["c"][0])
+            if s is None:
+                s = (R(c[0]) + n["op"]) if n.get("post") else (n["op"] + R(c[0]))
         elif k in ("IntegerLiteral", "CXXBoolLiteralExpr"):
             s = str(n["v"])
         elif k == "CharacterLiteral":
